@@ -2,6 +2,55 @@
 
 package swarm
 
-import "encoding/json"
+import (
+	"context"
+	"encoding/json"
+	"errors"
+
+	"github.com/libp2p/go-libp2p/core/peer"
+
+	ma "github.com/multiformats/go-multiaddr"
+)
 
 func jsonUnmarshalVF(b []byte, v any) error { return json.Unmarshal(b, v) }
+
+// vfDNS is a scripted network.MultiaddrDNSResolver: /dnsaddr names map to whole address lists, /dns4 and
+// /dns6 names to IP prefixes.  No network.
+type vfDNS struct {
+	addr map[string][]ma.Multiaddr
+	host map[string][]string
+}
+
+func (d *vfDNS) ResolveDNSAddr(_ context.Context, _ peer.ID, maddr ma.Multiaddr, _ int, limit int) ([]ma.Multiaddr, error) {
+	name, err := maddr.ValueForProtocol(ma.P_DNSADDR)
+	if err != nil {
+		return nil, err
+	}
+	out, ok := d.addr[name]
+	if !ok {
+		return nil, errors.New("verif: no such dnsaddr name")
+	}
+	if len(out) > limit {
+		out = out[:limit]
+	}
+	return append([]ma.Multiaddr(nil), out...), nil
+}
+
+func (d *vfDNS) ResolveDNSComponent(_ context.Context, maddr ma.Multiaddr, limit int) ([]ma.Multiaddr, error) {
+	first, rest := ma.SplitFirst(maddr)
+	if first == nil {
+		return nil, errors.New("verif: empty address")
+	}
+	ips, ok := d.host[first.Value()]
+	if !ok {
+		return nil, errors.New("verif: no such host name")
+	}
+	var out []ma.Multiaddr
+	for _, ip := range ips {
+		if len(out) == limit {
+			break
+		}
+		out = append(out, ma.StringCast(ip).Encapsulate(rest))
+	}
+	return out, nil
+}
